@@ -388,6 +388,10 @@ PROPS['C20'] = dict(
 # stretch theorems proved in separate files (same namespaces)
 PROPS['C01']['more_proof_modules'] = ['GeodeVerif.Proofs.C01b']
 PROPS['C01']['required_theorems'] += ['y_sign', 'y_sign_neg', 'hemisphere_follows_latitude', 'hemisphere_utm_auto', 'alpha_abs_bound']
+PROPS['C02']['more_proof_modules'] = ['GeodeVerif.Proofs.C02b']
+PROPS['C02']['required_theorems'] += ['sa_ftn', 'sa_f1tn', 'sa_newton_step', 'sa_unfold', 'saCore_eq', 'standalone_eq',
+                                      'standalone_longitude_eq_library', 'standalone_latitude_vs_library']
+PROPS['C02']['tie_functions'] = list(PROPS['C02']['tie_functions']) + ['Mga2gda.grid2geo']
 PROPS['C03']['more_proof_modules'] = ['GeodeVerif.Proofs.C03b']
 PROPS['C03']['required_theorems'] += ['height_eq_at_fixed_point', 'height_deriv', 'height_stationary_at_fixed_point']
 PROPS['C03']['required_theorems'] += ['latStep_deriv', 'latStep_contraction_global', 'exit_close_to_fixed_point',
